@@ -267,6 +267,9 @@ type CrashCase struct {
 	All    bool
 	// Second are second-crash points in permille of the recovery run's write log, tried at every 3rd first point.
 	Second []int
+	// Kill are real-kill cross-validation points (permille of the write log): a child process on a file-backed store
+	// is SIGKILLed after that write.
+	Kill []int
 }
 
 // RunCrashCase executes the uninterrupted run, then crashes and recovers at the chosen points.
@@ -338,6 +341,13 @@ func RunCrashCase(c *CrashCase, which string, res *vprop.Result) {
 			// leave the vault open: something may still be running (the verdict will say so)
 		}
 		return rr, created, rr.NewErr == nil
+	}
+	for _, p := range c.Kill {
+		k := 1 + p*(n-1)/1000
+		RealKill(sc, k, ref, which, res)
+		if len(res.Violations) > 0 {
+			return
+		}
 	}
 	for i, k := range ks {
 		prefix := writes[:k]
